@@ -133,6 +133,13 @@ def check(spec):
         with quiet():
             paths, n = setup_files(d, spec)
         seed = spec.get('rng', 1)
+        if spec.get('prior_pair'):
+            # an earlier invocation in the same process with OTHER patterns behind the same file names; then the files are rewritten
+            with quiet():
+                prior = dict(spec, pair=spec['prior_pair'])
+                paths0, _ = setup_files(d, prior)
+                run_cli(paths0, prior, seed)
+                paths, n = setup_files(d, spec)
         with quiet():
             r, args = run_cli(paths, spec, seed)
         shown = ' '.join(os.path.basename(a) if os.sep in a else a for a in args)
@@ -198,6 +205,12 @@ def run(rec, tier, seed):
         # a structure of a single atom (one ion per cell), replicated, with a one-line charge file
         dict(pair='single-swap', opts=dict(find=True, replace=True, replicate=[2, 1, 1], charges=True), copies=1, decoys=0),
         dict(pair='single-swap', opts=dict(charges=True), copies=1, decoys=0),
+        # pair potentials for elements whose symbol is a prefix of other symbols
+        dict(pair='bsi-swap', opts=dict(find=True, replace=True, pp=True), outfmts=['lmpdat']),
+        dict(pair='bsi-swap', opts=dict(pp=True), outfmts=['lmpdat']),
+        # a second invocation in the same process with rewritten pattern files behind the same names
+        dict(pair='grow-planar', opts=dict(find=True, replace=True), prior_pair='swap-element'),
+        dict(pair='sym-grow', opts=dict(find=True), prior_pair='swap-element'),
     ]
     k = 0
     for bi, b in enumerate(base):
@@ -206,7 +219,7 @@ def run(rec, tier, seed):
                 k += 1
                 if tier == 'quick' and (k + bi) % 3 != 0 and infmt != 'cif':
                     continue     # rotates through the (input, output) format combinations from one option set to the next
-                spec = dict(pair=b['pair'], opts=b['opts'], infmt=infmt, outfmt=outfmt, seed=seed * 100 + k, rng=k, noise=b.get('noise', 0.0), copies=b.get('copies', 3), decoys=b.get('decoys', 2))
+                spec = dict(pair=b['pair'], opts=b['opts'], infmt=infmt, outfmt=outfmt, seed=seed * 100 + k, rng=k, noise=b.get('noise', 0.0), copies=b.get('copies', 3), decoys=b.get('decoys', 2), **({'prior_pair': b['prior_pair']} if 'prior_pair' in b else {}))
                 msg = check(spec)
                 rec.case(repr(sorted(spec.items(), key=str)), sample=spec if len(rec.samples) < 2 else None)
                 if msg:
